@@ -3,6 +3,10 @@ package vm
 import (
 	"math/big"
 
+	"github.com/ethereum/go-ethereum/common"
+	"github.com/ethereum/go-ethereum/core/state"
+	"github.com/holiman/uint256"
+
 	"github.com/ethereum/go-ethereum/params"
 )
 
@@ -307,4 +311,69 @@ func zzH_C31_contract_wrappers() {
 // configuration and the block number (overlay helper for the harnesses in package core).
 func ZZBareEVM(cfg *params.ChainConfig, number *big.Int) *EVM {
 	return &EVM{chainConfig: cfg, Context: BlockContext{BlockNumber: number}}
+}
+
+// ---- the real interpreter loop with the real SSTORE pricing (EIP-8037/8038) on a real StateDB ----
+
+var zzAmsterdamTableC31 = newAmsterdamInstructionSet()
+
+// One or two SSTOREs to the same slot, symbolic values, symbolic committed value, symbolic
+// execution gas and state-gas reservoir: whatever happens (success, out of gas at any point),
+// the frame's budget satisfies the two conservation equations, never reports more gas than it
+// was given, and a store only takes effect if it was paid for.
+func zzH_C31_run_sstore() {
+	addr := common.Address{19: 0x42}
+	slot := common.Hash{31: 1}
+	var origin common.Hash
+	origin[31] = zzNondetU8()
+	sdb := state.ZZLoadedState(addr, slot, origin)
+	perByte := zzNondetU64()
+	zzAssume(perByte >= 1 && perByte <= 4096)
+	evm := &EVM{table: &zzAmsterdamTableC31, arena: &stackArena{data: make([]uint256.Int, initialStackSize)},
+		StateDB: sdb, Context: BlockContext{CostPerStateByte: perByte}}
+	n := 1 + zzChoice(2)
+	var code []byte
+	var last byte
+	for i := 0; i < n; i++ {
+		last = zzNondetU8()
+		code = append(code, byte(PUSH1), last, byte(PUSH1), 1, byte(SSTORE))
+	}
+	e0, s0 := zzNondetU64(), zzNondetU64()
+	zzAssume(e0 <= 1<<40)
+	zzAssume(s0 <= 1<<40)
+	c := &Contract{address: addr, Code: code, Gas: GasBudget{ExecutionGas: e0, StateGas: s0}}
+	_, err := evm.Run(c, nil, false)
+	g := c.Gas
+	zzAssert(zzAll(g.ExecutionGas <= e0, g.UsedExecutionGas <= e0, g.Spilled <= e0), "no execution-gas quantity exceeds what the frame was given")
+	zzAssert(g.ExecutionGas+g.UsedExecutionGas+g.Spilled == e0, "execution gas left + used + spilled into state gas = given")
+	zzAssert(int64(g.StateGas)+g.UsedStateGas-int64(g.Spilled) == int64(s0), "reservoir left + state gas used - spilled = reservoir given")
+	zzAssert(g.StateGas <= s0+64*perByte, "the reservoir never grows beyond a refund of the slot it paid for")
+	if err == nil {
+		var want common.Hash
+		want[31] = last
+		zzAssert(sdb.GetState(addr, slot) == want, "after success the slot holds the last stored value")
+		// every store costs at least the warm access; it cannot have been free
+		zzAssert(g.UsedExecutionGas >= 100, "a successful store consumed at least the warm access cost")
+		if n == 1 {
+			// EIP-8037/8038 price of the first (cold) store to a slot, plus the two PUSH1
+			exec, st := uint64(3+3+2100), uint64(0)
+			if want != origin {
+				exec += 10000 // STORAGE_WRITE
+				if origin == (common.Hash{}) {
+					st = 64 * perByte // a new slot is state growth
+				}
+			}
+			zzAssert(g.UsedExecutionGas == exec, "execution gas charged for a cold store is access + write surcharge")
+			zzAssert(g.UsedStateGas == int64(st), "state gas is charged exactly for creating a slot")
+			wantRefund := uint64(0)
+			if origin != (common.Hash{}) && want == (common.Hash{}) {
+				wantRefund = 11616
+			}
+			zzAssert(sdb.GetRefund() == wantRefund, "clearing a slot earns the clear refund")
+		}
+		zzReach("stored")
+	} else {
+		zzReach("failed")
+	}
+	zzObserve("left", g.ExecutionGas)
 }
